@@ -79,13 +79,13 @@ func rangesSeq(c *lib.Ctx, seq []int) {
 			r := rangeOps[o]
 			got := rs.Insert(r.from, r.to)
 			if want := m.insert(r.from, r.to); got != want {
-				fail("insert %d returned %d, the number of ranges changed by %d (now %v)", i, got, want, m.ivs)
+				fail("insert %d returned %d, the number of ranges changed by %d (now %q)", i, got, want, m.ivs)
 				return
 			}
 		}
 		for _, p := range rangeProbes {
 			if got, want := rs.Contains(p), m.contains(p); got != want {
-				fail("Contains(%q) = %v want %v (ranges %v, tree %s)", p, got, want, m.ivs, rs.String())
+				fail("Contains(%q) = %v want %v (ranges %q, tree %q)", p, got, want, m.ivs, rs.String())
 				return
 			}
 		}
@@ -111,10 +111,12 @@ func gridPos(j int) int { return 2*j + 2 } // cell of key(j); key(j)+"\x00" is t
 // insert covers cells pa..pb and returns the change in the number of runs
 func (m *gridModel) insert(pa, pb int) int {
 	k := 0
-	for i := pa; i <= pb; i++ {
+	for i := pa; i <= pb; i++ { // runs that intersect pa..pb (count first, then cover)
 		if m.covered[i] && (i == pa || !m.covered[i-1]) {
 			k++
 		}
+	}
+	for i := pa; i <= pb; i++ {
 		m.covered[i] = true
 	}
 	// a run that continues after pb was counted already if it intersects; one
